@@ -242,4 +242,16 @@ META = {
         assumptions=["the generated-source monitor wraps BasicClosureCompiler._compile from the harness; the audit hook's own self-test must pass or the run is inconclusive",
                      "field ids are legal Python identifiers (dataclass) or arbitrary TypedDict keys; class and function names are arbitrary strings (type() accepts them)"],
     ),
+    "C20": _m(
+        "one case = 3 grammar programs (random types incl. models, one random mode; inputs: the reference dump as dict / OrderedDict / mappingproxy / UserDict / defaultdict / "
+        "ChainMap / deque / tuple, with and without a missing key) + 2 name_mapping layout programs (C03 generator: nested paths, lists, extras collected into fields / "
+        "saturators, extra_out fields, omit_default; inputs with extra keys holding nested mutable values) + 1 converter program (C13 generator, nested / list / dict / "
+        "optional coercions). Every call is made twice on the same argument and once more after mutating the first result. Oracles: deep snapshot of the argument before / "
+        "after, type-strict equality of repeated calls, id-graph disjointness of every mutable container between results and between result and argument outside documented "
+        "as-is positions (Any / object; for converters only objects the plan says adaptix builds), snapshot of result 2 and of a third call after mutating result 1. "
+        "distinct = (kind of call, program, input variant); non-trivial = the result contains a mutable container",
+        cases=(50, 1200), budget=(50, 420),
+        minimums={"quick": {"load_call_pairs": 3000, "dump_call_pairs": 800, "convert_call_pairs": 250, "layout_programs": 400, "distinct_nontrivial": 2500}},
+        assumptions=["sharing at Any / object positions (incl. values inside collected extras) is documented and allowed; frozen / immutable values are not tracked"],
+    ),
 }
